@@ -1,6 +1,7 @@
 package main
 
 import (
+	"reflect"
 	"fmt"
 	"go/token"
 	"go/types"
@@ -581,6 +582,17 @@ func c05Tables(w *World, r *Report) {
 	ri := r.Rule("C05.4", 2, "the default allowed algorithms are asymmetric and a subset of the algorithms accepted by the parser")
 	// the tables are found by their use: the parser's set is what is handed to jwt.ParseSigned, the
 	// defaults are what a constructor stores into the AllowedAlgorithms of the assertions
+	// the field of the assertions holding the allowed algorithms: found by its configuration tag
+	algField := "AllowedAlgorithms"
+	if exp := w.Named("internal/rules/mechanisms/oauth2", "Expectation"); exp != nil {
+		if st, ok := exp.Underlying().(*types.Struct); ok {
+			for i := 0; i < st.NumFields(); i++ {
+				if tag, _ := reflect.StructTag(st.Tag(i)).Lookup("mapstructure"); strings.Split(tag, ",")[0] == "allowed_algorithms" {
+					algField = st.Field(i).Name()
+				}
+			}
+		}
+	}
 	var def, sup *ssa.Function
 	var ctors []*ssa.Function
 	for _, fn := range w.Funcs {
@@ -598,7 +610,7 @@ func c05Tables(w *World, r *Report) {
 		}
 		eachInstr(fn, func(in ssa.Instruction) {
 			st, ok := in.(*ssa.Store)
-			if !ok || !pathEndsWith(st.Addr, "AllowedAlgorithms") {
+			if !ok || !pathEndsWith(st.Addr, algField) {
 				return
 			}
 			if tc, _ := resultOfCall(st.Val); tc != nil {
@@ -646,7 +658,7 @@ func c05Tables(w *World, r *Report) {
 		for _, c := range findCalls(ctor, func(c *ssa.CallCommon) bool { return c.StaticCallee() == def }) {
 			if onlyVia(ctor, c.Block(), func(f Fact) bool {
 				l, k := lenFact(f)
-				return l != nil && k == "empty" && pathEndsWith(l, "AllowedAlgorithms")
+				return l != nil && k == "empty" && pathEndsWith(l, algField)
 			}) {
 				ok = true
 			}
